@@ -178,7 +178,7 @@ def compare_full(test, polarity=True):
 
 
 def _role(n):
-  if isinstance(n, ast.Attribute) and isinstance(n.value, ast.Name):
+  if isinstance(n, ast.Attribute):
     return n.attr
   return norm_text(n)
 
